@@ -602,7 +602,7 @@ def rules(rep, facts):
     # text on, a `to_str` followed by the same filter) is not a finding.
     r7 = {o['key']: o['ok'] for o in rep.rules.get('C03/R7', {}).get('obligations', [])}
     if r7.get('CRLF line endings') and r7.get('mixed LF and CRLF line endings') and not any(v['rule'] == 'C03/R7' and 'CRLF' in v['key'] for v in rep.violations):
-        moot = [v for v in rep.violations if v['rule'] == 'C03/R4' and (v['key'].endswith('raw-text-taken-out') or v['key'].endswith('via-encode'))]
+        moot = [v for v in rep.violations if v['rule'] == 'C03/R4' and (v['key'].endswith('raw-text-taken-out') or v['key'].endswith('via-encode') or v['key'].endswith('cr-writer'))]
         if moot:
             rep.violations[:] = [v for v in rep.violations if v not in moot]
             if 'C03/R4' in rep.rules:
